@@ -44,6 +44,7 @@ class Driver:
         self.task = self.app.task(vtasks.add)
         vclock.install(self.clock)
         self.ids: dict[str, str] = {}
+        self.hb_count: dict[str, int] = {}
         context.set_runner_context(self.app.app_id, world.ctx("c0"))
         for k, name in enumerate(INVS):
             self.ids[name] = self.task(k, 0).invocation_id
@@ -99,7 +100,11 @@ class Driver:
                     o.set_invocation_status(self.ids[op[1]], InvocationStatus.RUNNING, world.ctx(owner))
                 elif kind == "heartbeat":
                     ev["r"] = op[1]
-                    o.register_runner_heartbeats([op[1]])
+                    # a heartbeat reaches the orchestrator in two ways: the runner's own check-in (it registers itself
+                    # as eligible for the global services) and its parent's report about its children (never eligible);
+                    # both count (Heartbeat(r) of Recovery.tla): they alternate here, own first
+                    nth = self.hb_count[op[1]] = self.hb_count.get(op[1], 0) + 1
+                    o.register_runner_heartbeats([op[1]], can_run_atomic_service=(nth % 2 == 1))
                 elif kind == "scan_pending":
                     ev["ids"] = sorted(self.names[x] for x in o.get_pending_invocations_for_recovery())
                 elif kind == "scan_running":
@@ -151,6 +156,15 @@ def boundary_histories(rng: random.Random, n: int, mp: int, da: int) -> list[lis
             ops.append((rng.choice(["scan_pending", "scan_running", "scan_pending", "scan_running",
                                     "recover_pending", "recover_running"]),))
         out.append(ops)
+    # a runner kept alive by repeated heartbeats (its own, then its parent's reports) while its work runs longer than
+    # the timeout: the scans sit on both sides of every boundary
+    for r in RUNNERS[:2]:
+        for gap in (da, da - 1 or 1):
+            ops = [("heartbeat", r), ("claim", INVS[0], r), ("start", INVS[0])]
+            for _ in range(3):
+                ops += [("tick", gap), ("heartbeat", r), ("scan_running",)]
+            ops += [("tick", da), ("scan_running",), ("tick", 1), ("scan_running",), ("recover_running",)]
+            out.append(ops)
     return out
 
 
@@ -199,7 +213,17 @@ def sequential_part(ctx: Ctx) -> None:
             ctx.findings.append(Finding("C04", formula, sig, {"kind": "history", **m, "step": step},
                                         detail=f"history step {step}: {ev['op']} -> ids={ev['ids']} st={ev['st']} "
                                                f"age(before)={prev['age']} hbage(before)={prev['hbage']} mp={m['mp']} da={m['da']}"))
-        if not vs.accepted and not vo.flags:
+        rejected = tr[vs.reached] if not vs.accepted else None
+        if rejected is not None and not vo.flags and rejected["op"] in ("scan_pending", "scan_running", "recover_pending", "recover_running"):
+            # sequential history, exact clock: the model (fed by the operations, not by the implementation's own
+            # bookkeeping) selects another set than the code did - e.g. a heartbeat the code did not take into account
+            nflag += 1
+            ctx.findings.append(Finding("C04", "ScanMatchesModel", {"formula": "ScanMatchesModel", "op": rejected["op"], "family": m["family"]},
+                                        {"kind": "history", **m, "step": vs.reached + 1},
+                                        detail=f"history step {vs.reached + 1}: {rejected['op']} selected {rejected['ids']} but Recovery.tla, stepped "
+                                               f"with the same operations, selects another set; st={rejected['st']} hbage(code)={rejected['hbage']} "
+                                               f"ops={m['ops'][:vs.reached + 1]}"))
+        elif not vs.accepted and not vo.flags:
             ndrift += 1
             ctx.drift.append(f"Recovery does not explain step {vs.reached + 1} of a {m['family']} history "
                              f"(mp={m['mp']}, da={m['da']}): {tr[vs.reached]}")
